@@ -346,11 +346,17 @@ func (sp *SinglePos) Sanitize() error {
 
 func (pp *PairPos) Sanitize() error {
 	if f1, isFormat1 := pp.Data.(PairPosData1); isFormat1 {
+		if f1.coverage == nil {
+			return errors.New("GPOS: missing PairPos1 coverage")
+		}
 		// there are fonts with to much PairSets : accept it
 		if exp, got := f1.coverage.Len(), len(f1.PairSets); exp > got {
 			return fmt.Errorf("GPOS: invalid PairPos1 sets count (%d > %d)", exp, got)
 		}
 	} else if f2, isFormat2 := pp.Data.(PairPosData2); isFormat2 {
+		if f2.coverage == nil || f2.ClassDef1 == nil || f2.ClassDef2 == nil {
+			return errors.New("GPOS: missing PairPos2 coverage or class definition")
+		}
 		if exp, got := f2.ClassDef1.Extent(), int(f2.class1Count); exp != got {
 			return fmt.Errorf("GPOS: invalid PairPos2 class1 count (%d != %d)", exp, got)
 		}
